@@ -1021,10 +1021,11 @@ class Torrent():
             self.validate()
             try:
                 info = utils.encode_dict(self.metainfo['info'])
+                info_enc = bencode.encode(info)
             except ValueError as e:
                 raise error.MetainfoError(e)
             else:
-                return hashlib.sha1(bencode.encode(info)).hexdigest()
+                return hashlib.sha1(info_enc).hexdigest()
         except error.MetainfoError as e:
             # If we can't calculate infohash, see if it was explicitly specifed.
             # This is necessary to create a Torrent from a Magnet URI.
@@ -1485,7 +1486,11 @@ class Torrent():
         """
         if validate:
             self.validate()
-        return bencode.encode(self.convert())
+        try:
+            return bencode.encode(self.convert())
+        except ValueError as e:
+            # E.g. integer that is too large to be converted to string
+            raise error.MetainfoError(e)
 
     def write_stream(self, stream, validate=True):
         """
